@@ -188,6 +188,10 @@ func c10Forward(u *vfUnit) {
 			if e.checkAttrs && string(c.Attrs) != string(e.attrs) {
 				probs = append(probs, fmt.Sprintf("attrs %x, want %x", c.Attrs, e.attrs))
 			}
+			if e.checkAttrs && c.AttrView != "" {
+				// the accessors a handler uses to read the attributes must show what was sent
+				probs = append(probs, "accessors: "+c.AttrView)
+			}
 			if len(probs) > 0 {
 				u.Violation("forward-call-mismatch:"+what+":"+strings.SplitN(probs[0], " ", 2)[0], fmt.Sprintf("%s: %s -> %s: %s", label, p, c, strings.Join(probs, "; ")), w)
 			}
@@ -205,6 +209,13 @@ func c10Forward(u *vfUnit) {
 		send(vfPkt{Type: rfRemove, Path: p}, []expect{{iface: "FileCmd", method: "Remove", path: q}}, "REMOVE")
 		send(vfPkt{Type: rfRename, Path: p, Path2: p2}, []expect{{iface: "FileCmd", method: "Rename", path: q, target: q2}}, "RENAME")
 		send(vfPkt{Type: rfSetstat, Path: p, Attrs: attrs}, []expect{{iface: "FileCmd", method: "Setstat", path: q, flags: attrs.Flags, attrs: attrBytes(attrs), checkAttrs: true}}, "SETSTAT")
+		// every subset of the attribute flags, with and without extended pairs
+		sub := vfAttrs{Flags: uint32(len(p)+int(id)) % 16, Size: 77, UID: 1001, GID: 1002, Perm: 0o100604, Atime: 5, Mtime: 6}
+		if (len(p)+int(id))%3 != 0 {
+			sub.Flags |= rfAttrExt
+			sub.Ext = [][2]string{{"user.a@example.com", "1"}, {"b", ""}}
+		}
+		send(vfPkt{Type: rfSetstat, Path: p, Attrs: sub}, []expect{{iface: "FileCmd", method: "Setstat", path: q, flags: sub.Flags, attrs: attrBytes(sub), checkAttrs: true}}, "SETSTAT-subset")
 		// symlink: first wire string is the target text (verbatim), second the link path
 		send(vfPkt{Type: rfSymlink, Path: p, Path2: p2}, []expect{{iface: "FileCmd", method: "Symlink", path: p, target: q2, verbatimPath: true}}, "SYMLINK")
 		send(vfPkt{Type: rfExtended, Ext: "hardlink@openssh.com", Path: p, Path2: p2}, []expect{{iface: "FileCmd", method: "Link", path: q, target: q2}}, "hardlink")
